@@ -69,6 +69,8 @@ def units(rng, tier):
                 kw = rng.choice([{}, {}, {"partition_difference": rng.choice([1, 2, len(v)])}])
             if a in ("ckk", "snp", "rnp") and max(v) > 2 ** 30:
                 v = v[:7]
+            if a in ("snp", "rnp"):
+                v = v[:7]            # the inclusion/exclusion tree is exponential when its bounds are loose (one huge item, many bins)
             if a in ("snp", "rnp") and v.count(0) > 3:
                 # the inclusion/exclusion tree enumerates every sub-collection of the zeros: minutes of CPU for 10 zeros
                 nz = [x for x in v if x != 0]
@@ -83,7 +85,7 @@ def units(rng, tier):
                 us.append(tag(part(rng, a, kk, [x * c for x in v], fam, **kw), grp, "scale", factor=c))
             if a in EXACT_PART or (a == "cbldm" and not kw):     # with a cardinality bound zeros change the problem
                 z = list(v)
-                for _ in range(rng.randint(1, 3)):
+                for _ in range(rng.randint(1, 2 if a in ("snp", "rnp") else 3)):
                     z.insert(rng.randint(0, len(z)), 0)
                 if a not in ("dp", "ilp") or len(z) <= 8:
                     us.append(tag(part(rng, a, kk, z, fam, **kw), grp, "zeros"))
@@ -142,6 +144,17 @@ def units(rng, tier):
             us.append(tag(u, grp, "agree", planted=(fam == "planted-perfect")))
     # agreement for every objective on inputs small enough for dp: dp, complete greedy under two random switch vectors, ilp (sometimes);
     # planted perfect partitions (total divisible by the number of bins) are over-represented: that is where bounds are tight
+    # five bins and many equal small values (where de-duplication of states matters), difference objective: cg, ckk (both managers), snp
+    for _ in range(120 if tier == "quick" else 1500):
+        k = 5
+        hi = rng.choice([3, 6, 6, 10])
+        vals = [rng.randint(1, hi) for _ in range(rng.randint(5, 9))]
+        _gid[0] += 1
+        grp = f"{_gid[0]}/agree"
+        for a in ["cg", "ckk", "ckk-sums", "snp"]:
+            kw = {"objective": [2, 0], "flags": [1, 1, 0, 1]} if a == "cg" else {}
+            u = part_unit("ckk" if a.startswith("ckk") else a, k, vals, rng, fmt="list", out="pst" if a == "ckk" else "sums", cmp="value", family="agree-5bins-small-values", **kw)
+            us.append(tag(u, grp, "agree", planted=False, label=a))
     for _ in range(120 if tier == "quick" else 1500):
         k = rng.choice([2, 2, 3, 3, 4])
         if rng.random() < 0.6:
@@ -166,11 +179,13 @@ def units(rng, tier):
         _gid[0] += 1
         grp = f"{_gid[0]}/agree"
         algos = ["dp", "cg", "cg2"] + (["ilp"] if rng.random() < (0.15 if tier == "quick" else 0.4) else [])
+        if o == [2, 0]:
+            algos += ["ckk", "ckk-sums", "snp"]
         for a in algos:
-            kw = {"objective": o}
+            kw = {"objective": o} if not (a.startswith("ckk") or a == "snp") else {}
             if a.startswith("cg"):
                 kw["flags"] = [rng.randint(0, 1) for _ in range(4)]
-            u = part_unit("cg" if a.startswith("cg") else a, k, vals, rng, fmt="list", out="sums" if a != "dp" else "pst",
+            u = part_unit("cg" if a.startswith("cg") else ("ckk" if a.startswith("ckk") else a), k, vals, rng, fmt="list", out="pst" if a in ("dp", "ckk") else "sums",
                           cmp=None if a == "ilp" else "value", family=fam, **kw)
             us.append(tag(u, grp, "agree", planted=False, label=a))
     return us
